@@ -13,7 +13,7 @@ ASSUMPTIONS = [
 ]
 OUTSIDE = ['matrix sizes > 4 (lu_solve) / > 3 (pivoting routines: abs-comparisons fork over row orders)', 'IEEE rounding / conditioning']
 OPTS = {'thorough': {'max_paths': 15000}}
-BOUNDS = {'quick': 'lu_solve n<=3, lu_factor/inverse/determinant/pivot n<=3 (n=3 with partly concrete entries), 2-call histories n=2, helpers symbolic dims 2-3; LU-first two-call histories',
+BOUNDS = {'quick': 'lu_solve n<=3, lu_factor/inverse/determinant/pivot n<=3 (n=3 with partly concrete entries), 2-call histories n=2, helpers symbolic dims 2-3; LU-first two-call histories; matrix edited in place between two calls',
           'thorough': 'lu_solve n<=4, pivoting routines fully symbolic n=3 (up to 5000 paths each); histories: n=2 both matrices symbolic, n=3 first matrix concrete (3 row-swap patterns) and second symbolic'}
 
 
